@@ -320,6 +320,15 @@ def closure {G} (mul : G → G → G) (eqv : G → G → Bool) (fuel : Nat) : Na
     | some l' => if l'.length = l.length then some l' else closure mul eqv fuel k l'
     | none => none
 
+/-- reading the generator list: `for op in generator_list: if op not in sym_list: sym_list.append(op)`
+    (a generator that is listed twice is ignored) -/
+def dedupGens {G} (eqv : G → G → Bool) (gens : List G) : List G :=
+  gens.foldl (fun acc x => if acc.any (fun y => eqv x y) then acc else acc ++ [x]) []
+
+/-- `PointGroup.__init__(generator_list)`: read the generators, then close the list -/
+def generate {G} (mul : G → G → G) (eqv : G → G → Bool) (fuel k : Nat) (gens : List G) : Option (List G) :=
+  closure mul eqv fuel k (dedupGens eqv gens)
+
 /-! ### exact models of the print formats at `Rat` (used by the driver only) -/
 
 def pow10 (n : Nat) : Rat := ((10 ^ n : Nat) : Rat)
@@ -439,7 +448,7 @@ def handle : List String → String
     | _, _, _, _ => "bad-op"
   | ["closure", gens] =>
     match parseIntss? gens with
-    | some g => match closure mulI (fun a b => a == b) 100000 64 g with
+    | some g => match generate mulI (fun a b => a == b) 100000 64 g with
                 | some l => showIntss l
                 | none => "RuntimeError"
     | none => "bad-op"
